@@ -29,7 +29,7 @@ func shrink(engine, bin string, rf *proto.ReplayFile, deadline time.Time) *proto
 		if writeReplay(tmp, c) != nil {
 			return false
 		}
-		got, _ := replayClass(bin, tmp, c.Flavour)
+		got, _ := replayClassWant(bin, tmp, c.Flavour, rf.Class)
 		return got == rf.Class
 	}
 	accept := func(c proto.ReplayFile) bool {
